@@ -111,6 +111,11 @@ func C10(c *Ctx) {
 				if ii%3 == 0 {
 					cs = append(cs, &mon.Case{Input: in, NoRecover: true, MaxExpr: 400000, MaxEvents: 400})
 				}
+				if ii%5 == 2 {
+					// through ParseReader, with readers that deliver their bytes all at once, together with
+					// io.EOF, one at a time or in halves (the entry points are template text as well)
+					cs = append(cs, &mon.Case{Input: in, Reader: true, MaxExpr: 400000, MaxEvents: 400})
+				}
 				if ii%4 == 1 && len(in) > 0 {
 					// invalid UTF-8 inside the input (also right after a proper prefix of a literal), both modes
 					bad := gast.Mutate(rng, in, alpha, true)
